@@ -19,7 +19,41 @@ ASSUMPTIONS = ["runs in which the library aborts on an accepted call are reporte
                "the driver only makes calls the API accepts (jumbo total size < capacity, payload sizes 0 or 2..16)"]
 
 
+def gen_lifetimes(rng):
+    """A process that lives long: 36-64 short-lived tracing threads one after the other, under a descriptor
+    table of 30 entries.  Whatever the library keeps per finished thread (descriptors, in particular) runs out
+    after tens of threads instead of the thousands a real limit of 1024 would take."""
+    r = rng.derive("lifetimes")
+    nth = r.randint(36, 64)
+    knobs = rtgen.base_knobs(rng.derive("knobs"), allow_faulty_io=False)
+    knobs["nofile"] = 30
+    knobs["strategy"] = 1
+    g = rtgen.Prog(r, nth, rt.CAP_SMALL, knobs)
+    g.tids = [300 + 7 * i for i in range(nth)]
+    p = g.plan
+    p.op(0, "proc_init", 1, rtgen.LOOM, rtgen.PID)
+    done_at = {}
+    for t in range(nth):
+        if t > 0:
+            p.op(t, "wait", t - 1, done_at[t - 1])
+        p.op(t, "thread_init", g.tids[t])
+        g.fill[t].len = 0
+        for _ in range(r.randint(0, 3)):
+            if r.chance(80):
+                g.emit(t, rtgen.rand_mcv(r), "now", r.choice([0, 4, 16]))
+            else:
+                g.jumbo(t, rtgen.rand_mcv(r), "now", r.choice([0, 5, 300]))
+        p.op(t, "flush")
+        p.op(t, "thread_free")
+        done_at[t] = len(p.ops[t])
+    p.op(0, "wait", nth - 1, done_at[nth - 1])
+    p.op(0, "proc_fini")
+    return {"variant": "small", "plan": p.to_case(), "tids": g.tids, "boundaries": 1, "lifetimes": nth}
+
+
 def gen(rng, tier, idx):
+    if idx % 40 == 17:
+        return gen_lifetimes(rng)
     r = rng.derive("plan")
     variant = "small" if r.chance(60) else "real"
     cap = rt.CAP_SMALL if variant == "small" else rt.CAP_REAL
@@ -65,8 +99,12 @@ def gen(rng, tier, idx):
                 else:
                     g.flush(t)
                 continue
-            a = r.weighted([("emit", 55), ("jumbo", 15), ("flush", 6), ("mark", 10), ("attr", 8), ("bigjumbo", 3), ("clock", 3)])
-            if a == "emit":
+            a = r.weighted([("emit", 55), ("jumbo", 15), ("flush", 6), ("mark", 10), ("attr", 8), ("bigjumbo", 3), ("clock", 3), ("reinit", 2)])
+            if a == "reinit":
+                # accepted and documented as ignored (a warning): must not touch what is buffered
+                g.plan.op(t, "thread_init", g.tids[t])
+                g.plan.op(t, "isready")
+            elif a == "emit":
                 g.emit(t, rtgen.rand_mcv(r), clk(), r.choice([0] + list(range(2, 17))))
             elif a == "jumbo":
                 g.jumbo(t, rtgen.rand_mcv(r), clk(), r.choice([0, 1, 2, 3, 4, 15, 16, 17, 100, 1000]))
@@ -109,7 +147,8 @@ def run(case, ctx):
                 "faults": {"short write": shorts, "zero clock advance": sum(1 for i in range(1, len(h.allclocks)) if h.allclocks[i][2] == h.allclocks[i - 1][2])},
                 "probes": {"automatic flush (boundary crossed)": case["boundaries"], "buffer:" + case["variant"]: 1,
                            "relocation through OVNI_TMPDIR": 1 if plan.knobs.get("tmpdir") else 0, "two threads": 1 if len(plan.ops) > 1 else 0,
-                           "tiny program (0-2 events before the first flush)": 1 if case.get("tiny") else 0},
+                           "tiny program (0-2 events before the first flush)": 1 if case.get("tiny") else 0,
+                           "long-lived process: 36-64 thread lifetimes under a 30-entry descriptor table": 1 if case.get("lifetimes") else 0},
                 "det": None,
                 "sample": {"variant": case["variant"], "knobs": plan.knobs, "ops_head": [o for o in plan.ops[0][:10]], "n_ops": nops,
                            "fs_steps": len(h.steps), "end": h.end}}
